@@ -8,7 +8,7 @@ import copy
 
 import nbformat
 
-from . import common, mergefam, concretize
+from . import common, mergefam, concretize, tlc
 from .common import Check
 from .corpus import Corpus
 from .mergefam import plan_item
@@ -64,8 +64,35 @@ def same_line_cases(r, n):
     return out
 
 
+KF_CFG = """SPECIFICATION Spec
+CONSTANT LineSeps <- PyLineSeps
+CONSTANT MaxLen = 2
+CONSTANT EMIT = FALSE
+CONSTANT Kind = "strings"
+CONSTANT NIns = 2
+CONSTANT NPatch = "all"
+INVARIANT %s
+CHECK_DEADLOCK FALSE
+"""
+
+
+def design_level_lines(chk):
+    """The line based string merge as a TLA+ transcription (MergeAlgo.tla, kind strings): TLC checks line provenance at
+    design level for every pair of differ-like diffs of every base of <= 2 lines.  It holds modulo the recorded glue
+    class (StrProvenanceModGlue) - and TLC's counterexample to the unrestricted invariant is that finding."""
+    r = tlc.run("MergeAlgo", KF_CFG % "StrProvenanceModGlue", workers=common.NCPU, timeout=1800, name="MergeAlgo-strings-prov", xmx="8g")
+    if r.invariant_violated or r.error:
+        raise tlc.TLCError("MergeAlgo strings: %s\n%s" % (r.error, r.out[-1500:]))
+    chk.add_model(r, "MergeAlgo strings MaxLen=2: StrProvenanceModGlue on every pair of line diffs")
+    r2 = tlc.run("MergeAlgo", KF_CFG % "StrProvenance", workers=1, timeout=1800, name="MergeAlgo-strings-kf", xmx="8g", check=False)
+    chk.notes["design_level_reproduction_of_KF-C07-1"] = (
+        "TLC finds a counterexample to StrProvenance in the transcribed line based merge (the glued line)"
+        if r2.invariant_violated else "no counterexample found")
+
+
 def run():
     chk = Check("C07")
+    design_level_lines(chk)
     corp = Corpus(chk)
     r = common.rng("c07")
     if chk.quick:
